@@ -488,6 +488,7 @@ def gen_stall(rng):
         sim["stray"] = [(after + 1, b"".join(raws))]
         env["dt"] = rng.choice([1, 200, 1000])
     base["stall"] = kind
+    base["healthy"] = False
     return base
 
 
@@ -545,6 +546,7 @@ def gen_corrupt(rng):
     else:
         how = rng.choice([True, 0x100, 0x80, 0x8000, 0x80000000, 0xFFFFFFFF, 1 << rng.randrange(32)])
     base["envs"][0]["sim"]["corrupt"] = (rng.randrange(1, 12), kind, how)
+    base["healthy"] = False
     return base
 
 
@@ -554,6 +556,7 @@ def refragment(rng, scn):
     for mode in ["none", "ones", "hdr", "random", "empties", "big"]:
         s = copy.deepcopy(scn)
         for env in s["envs"]:
+            env["dt"] = 0      # fragmentation must not be confused with slowness: no virtual time passes in these runs
             if mode == "none":
                 env["frags"] = []
             elif mode == "ones":
